@@ -26,6 +26,7 @@ def run(prog, run):
     r_cmp(prog, run)
     r_string(prog, run)
     r_source(prog, run)
+    r_multi(prog, run)
 
 
 # ---------------------------------------------------------------------------------------------------------------
@@ -637,3 +638,29 @@ def r_source(prog, run):
             run.violation(rid, 'clientPresence-emission#%s#stale-hash' % top.qname, g.loc(i),
                           '%s sends the stored client presence with the hash computed earlier: extensions or identity data registered since then are answered '
                           'in disco#info but not covered by the advertised hash' % top.display())
+
+
+def r_multi(prog, run):
+    rid = run.rule('C20.R5', 'every multi-valued data form field type reaches the sorted, "<"-joined branch of the hashed string (none of them is hashed through the single-value '
+                             'conversion, which yields an empty string for a list)', floor=2)
+    f = prog.fn(VS)
+    joins = [i for i, n in f.calls() if f.cname(n).endswith('::join')]
+    if not joins:
+        raise AnalysisBroken('C20.R5: join not found in verificationString')
+    en = prog.enum('QXmppDataForm::Field::Type')
+    multi = [e['name'] for e in en['enumerators'] if 'Multi' in e['name']]
+    if len(multi) < 2:
+        raise AnalysisBroken('C20.R5: multi-valued field types not found in QXmppDataForm::Field::Type')
+    for name in multi:
+        run.instance(rid)
+        qn = 'QXmppDataForm::Field::' + name
+        ev = cfgx.Evaluator(f, {'QXmppDataForm::Field::type': ('enum', qn)},
+                            custom=lambda g, nid, st: (False,) if g.nodes[nid]['k'] == 'call' and g.cname(g.nodes[nid]) in ('QXmppDataForm::isNull',) else None)
+        visits = {}
+        cfgx.explore(f, (), None, lambda g, c, st: ev.ev(c, st), record_visits=visits)
+        if any(f.pos(j) and f.pos(j)[0] in visits for j in joins):
+            run.ok(rid, f.loc(joins[0]), '%s values reach the sorted join' % name)
+        else:
+            run.violation(rid, 'verificationString#multi-value#%s' % name, f.loc(joins[0]),
+                          'a %s field never reaches the sorted join: its values are hashed through the single-value conversion (empty for a list), so they do not influence the '
+                          'verification string' % name)
